@@ -328,7 +328,8 @@ package k8s
 //@   invariant infoMapOK(nodeNameToNodeInfo)
 //@   invariant infoSep(nodeNameToNodeInfo)
 //@   invariant forall s string :: has(nodeNameToNodeInfo, s) ==> nodeNameToNodeInfo[s].node == nil
-//@   invariant forall j :: 0 <= j && j < #i ==> has(nodeNameToNodeInfo, pods[j].Spec.NodeName) && podIn(pods[j], nodeNameToNodeInfo[pods[j].Spec.NodeName])
+//@   invariant forall j :: 0 <= j && j < #i ==> has(nodeNameToNodeInfo, pods[j].Spec.NodeName)
+//@   invariant forall j :: 0 <= j && j < #i ==> podIn(pods[j], nodeNameToNodeInfo[pods[j].Spec.NodeName])
 //@ loop #1
 //@   modifies mapof(nodeNameToNodeInfo), mapvals(nodeNameToNodeInfo)
 //@   invariant forall s string :: has(nodeNameToNodeInfo, s) ==> birth(nodeNameToNodeInfo[s]) >= entry(now) || (entry(has(nodeNameToNodeInfo, s)) && entry(nodeNameToNodeInfo[s]) == nodeNameToNodeInfo[s])
